@@ -7,8 +7,10 @@ import time
 
 from .core import VERIF
 
-EVID_DIR = os.path.join(VERIF, "evidence")
-REPLAY_DIR = os.path.join(VERIF, "replays")
+# (VERIF_OUT_DIR: self-validation runs against deliberately broken trees keep their evidence and replays out of /verif)
+_OUT = os.environ.get("VERIF_OUT_DIR") or VERIF
+EVID_DIR = os.path.join(_OUT, "evidence")
+REPLAY_DIR = os.path.join(_OUT, "replays")
 KNOWN = os.path.join(VERIF, "known_findings.json")
 
 
